@@ -34,13 +34,18 @@ RULE = (
     "one field that is serialised but declared eq=False, so both entries compare equal), 'fetch the entry, "
     "mutate one serialised field in place, store it again under its key' steps, the forms to run and, for "
     "SQLite, a split into two sessions (reopen and continue writing; rewrites fall in the same or the next "
-    "session). "
+    "session); removals of whole subtrees: delete_node on a proper prefix of a key of the history (or on the "
+    "key itself) through the handle that stored the keys - model: the key and everything below it is gone - "
+    "in the same or the next session than the stores, followed by further stores (the removed node itself, "
+    "its direct children, keys elsewhere). "
     "Oracle: expected projection (key, serialised meta fields, {name: value}, loaded) computed from the "
     "spec by the documented rule (size/nfiles when not None, the other fields when truthy) versus the "
     "projection read attribute-wise from what comes back; key sets equal, entries equal one by one; in about half of the SQLite cases the program also takes a view at a drawn prefix "
     "(DataIndex.view: a second handle with its own identity cache on the SAME SQLite connection), writes / "
-    "deletes 0-4 entries in a row through it (reserved key names, so no key is written through two "
-    "handles), issues explicit commits through the parent or the view before / after, and ends each session "
+    "deletes 0-4 entries in a row through it (reserved key names, so no key is STORED through two "
+    "handles; the view prefix is drawn or cut from a key of the history, and removals also go across handles: "
+    "`del view[k]` of a key the parent handle stored, view.delete_node(n) above keys of either handle, "
+    "delete_node through the parent above keys the view stored), issues explicit commits through the parent or the view before / after, and ends each session "
     "with a commit through a drawn handle; every write is thus followed by a commit on some handle of the "
     "connection and must be durable: the reopened index must equal the model and what the open parent "
     "handle reported (by iteration, which does not commit) right before close; in the other "
@@ -49,7 +54,9 @@ RULE = (
     "triggers the lazy load through iteritems / iteritems(prefix) / __getitem__ or info of a child / ls / "
     "load (or leaves it to the final iteration), commits, and the reopened index (no storage) must equal, key "
     "by key incl. the materialised children and the loaded flags, what the open handle reported right before "
-    "close; the "
+    "close; a key removed by any of these routes (exact key, ancestor node, other handle) must stay removed "
+    "after commit / close / reopen - same key set as the model and as the open handle reported, so an entry "
+    "that only survives in a handle's identity cache must not come back; the "
     "SQLite form is read before close (through the identity cache, by iteration and by lookup) and after "
     "reopen; a listing with metadata (per entry the Meta field named like the hash - md5/etag/checksum - is "
     "drawn absent, equal to or different from the hash value) must parse back (given its hash name) to the "
@@ -62,6 +69,20 @@ ASSUMPTIONS = [
     "serialised Meta fields are isdir, size, nfiles, isexec, version_id, etag, checksum, md5, remote; "
     "size/nfiles are emitted when not None, the others when truthy (meta.py to_dict as documented in the anchor)",
     "Meta() and a missing meta, HashInfo without name or value and a missing hash are equal on the projection",
+    "delete_node histories: the root node is never deleted (the trie cannot be used afterwards) and a node is "
+    "only deleted when the model has a key at or below it (a missing node is a KeyError, not a serialisation "
+    "matter). After delete_node(K), stores in the SAME session below K are left out of the history (not "
+    "executed, not modelled; class 'sqlite:write-below-deleted-node-left-out') unless they go through the "
+    "deleting handle to a direct child of K: sqltrie's SQLiteTrie keeps a per-handle key -> row-id memo "
+    "(_ids) of which delete_node forgets K only, so on the unchanged tree `index[K + (a, b)] = e` after "
+    "`index.delete_node(K)` (with K + (a,) known before) files the row under the unreachable old node and the "
+    "store is lost at once - the OPEN index already lacks the key, nothing is lost by serialising, and the "
+    "memo lives in the third-party package, not in /repo. The next session (fresh handles) stores anywhere",
+    "parent handle and view share one SQLite table: a key removed through either handle is removed from the "
+    "index, and stays removed after commit / close / reopen, whichever handle stored it. What a handle that "
+    "still holds the removed entry in its identity cache answers to a LOOKUP of that key is cross-handle "
+    "coherence, not serialisation, and is not judged (sessions with a view are read by iteration only); a key "
+    "is never STORED through two handles",
     "listings with metadata: every entry has a Meta and a truthy hash of the tree's hash name, and the hash name "
     "is one that Meta carries (md5, md5-dos2unix, etag, checksum). The listing merges the hash and the Meta field of "
     "that name into one JSON member and the hash wins: the hash must survive; a Meta value of that name that differs "
@@ -260,7 +281,35 @@ def mutated_spec(spec, field, value):
     return dict(spec, meta={**(spec["meta"] or {}), field: value})
 
 
-VIEW_OPS = ("view", "vset", "vdel", "commit")
+VIEW_OPS = ("view", "vset", "vdel", "vdelkey", "vdelnode", "commit")
+
+
+def under(key, prefix):
+    """key lies at or below prefix"""
+    return key[:len(prefix)] == prefix
+
+
+def unsafe_write(state, handle, full):
+    """After delete_node(K) the handle that ran it has forgotten the row id of K only, every other handle has
+    forgotten nothing (sqltrie keeps a per-handle key -> row id memo for the session): a later write in the
+    SAME session below K can be filed under a row that is no longer reachable and is lost before any
+    serialisation happens. That is no statement of C20 (see ASSUMPTIONS): such writes are not part of a
+    history. Safe below K: direct children of K written through the deleting handle. K itself is always safe."""
+    for node, deleter in state.get("poison", ()):
+        depth = len(full) - len(node)
+        if depth >= 1 and under(full, node) and not (deleter == handle and depth == 1):
+            return True
+    return False
+
+
+def drop_subtree(model, node, state):
+    """Model of delete_node: the key and everything below it go away. Returns the removed keys."""
+    gone = sorted(k for k in model if under(k, node))
+    for k in gone:
+        del model[k]
+        state.setdefault("shared", set()).discard(k)
+        state.setdefault("vkeys", set()).discard(k)
+    return gone
 
 
 def view_full_key(state, op):
@@ -283,6 +332,9 @@ def get_view(index, state):
 def apply_ops(index, ops, model, state=None):
     state = state if state is not None else {}
     vkeys = state.setdefault("vkeys", set())
+    poison = state.setdefault("poison", [])          # [(full key of a deleted node, deleting handle)], per session
+    fresh = state.setdefault("fresh", set())         # {(handle, full key)} stored through that handle this session
+    classes = state.setdefault("classes", [])
     for op in ops:
         kind = op["op"]
         if kind == "view":
@@ -293,21 +345,61 @@ def apply_ops(index, ops, model, state=None):
             view = get_view(index, state) if op["via"] == "view" else None
             (view if view is not None else index).commit()
             continue
-        if kind in ("vset", "vdel"):
+        if kind in ("vset", "vdel", "vdelkey", "vdelnode"):
             view = get_view(index, state)
             if view is None:
                 continue
             name, full = tuple(op["name"]), view_full_key(state, op)
             if kind == "vset":
+                if unsafe_write(state, "view", full):
+                    classes.append("sqlite:write-below-deleted-node-left-out")
+                    continue
                 view[name] = build_entry(dict(op, key=list(name)))   # keys are relative to the view's prefix
                 model[full] = dict(op, op="set", key=list(full))
                 vkeys.add(full)
-            elif full in model and full in vkeys:
+                fresh.add(("view", full))
+            elif kind == "vdelnode":
+                # delete_node through the view: the subtree goes away, whoever stored its keys
+                gone = [k for k in model if under(k, full)]
+                if gone:
+                    classes.append("sqlite:view-delete-node")
+                    if any(k not in vkeys for k in gone):
+                        classes.append("sqlite:view-delete-node:removes-parent-keys")
+                    if any(("parent", k) in fresh for k in gone):
+                        classes.append("sqlite:view-delete-node:removes-keys-the-parent-stored-this-session")
+                    view.delete_node(name)
+                    drop_subtree(model, full, state)
+                    poison.append((full, "view"))
+            elif full in model and (full in vkeys or kind == "vdelkey"):
+                if full not in vkeys:
+                    classes.append("sqlite:view-deletes-parent-key")
+                    if ("parent", full) in fresh:
+                        classes.append("sqlite:view-deletes-key-the-parent-stored-this-session")
                 del view[name]
                 del model[full]
+                vkeys.discard(full)
+                state.setdefault("shared", set()).discard(full)
             continue
         key = tuple(op["key"])
         shared = state.setdefault("shared", set())
+        if kind == "delnode":
+            # delete_node on an ancestor (or the key itself): the whole subtree goes away
+            gone = [k for k in model if under(k, key)]
+            if key and gone:
+                classes.append("sqlite:delete-node")
+                if any(k != key for k in gone):
+                    classes.append("sqlite:delete-node:removes-descendants")
+                if any(k != key and ("parent", k) in fresh for k in gone):
+                    classes.append("sqlite:delete-node:removes-descendants-stored-this-session")
+                if any(k in vkeys for k in gone):
+                    classes.append("sqlite:delete-node:removes-view-keys")
+                index.delete_node(key)
+                drop_subtree(model, key, state)
+                poison.append((key, "parent"))
+            continue
+        if kind in ("set", "mutate", "alias", "rename") and unsafe_write(state, "parent", key):
+            classes.append("sqlite:write-below-deleted-node-left-out")
+            continue
         if kind in ("alias", "rename"):
             src = tuple(op["src"])
             if src not in model or src == key:
@@ -318,10 +410,12 @@ def apply_ops(index, ops, model, state=None):
                 index[key] = entry
                 model[key] = dict(model[src], key=list(key), _loosekey=True)
                 shared.update((src, key))
+                fresh.add(("parent", key))
             else:
                 # rename that reuses the entry object
                 index[key] = index.pop(src)
                 model[key] = dict(model.pop(src), key=list(key), _loosekey=True)
+                fresh.add(("parent", key))
                 if src in shared:
                     shared.discard(src)
                     shared.add(key)
@@ -330,6 +424,7 @@ def apply_ops(index, ops, model, state=None):
             index[key] = build_entry(op)
             model[key] = op
             shared.discard(key)
+            fresh.add(("parent", key))
         elif kind == "mutate":
             if key in model and key not in shared:   # (mutating an object stored under two keys is aliasing,
                 #                                       not serialisation: the other key's row is not rewritten)
@@ -338,6 +433,7 @@ def apply_ops(index, ops, model, state=None):
                 mutate_entry(entry, op["field"], op["value"])
                 index[key] = entry
                 model[key] = mutated_spec(model[key], op["field"], op["value"])
+                fresh.add(("parent", key))
         elif key in model:
             del index[key]
             del model[key]
@@ -471,11 +567,16 @@ def arm_sqlite(ops, split, d, viols, lazy=None, classes=None, final_commit="pare
         # second handle or explicit commits nothing is looked up between the last write and close
         view_mode = any(op["op"] in VIEW_OPS for op in chunk)
         state["view"] = None
+        state["poison"], state["fresh"], state["classes"] = [], set(), classes   # per session (see unsafe_write)
         by_lookup = None
         index = DataIndex.open(path)
         try:
             apply_ops(index, chunk, model, state)
             if lazy and n == len(sessions) - 1:
+                # directory entries of the lazy phase are written through the parent handle as well
+                lazy = dict(lazy, dirs=[sp for i, sp in enumerate(lazy["dirs"])
+                                        if not unsafe_write(state, "parent", lazy_dir_key(i, sp))])
+            if lazy and lazy["dirs"] and n == len(sessions) - 1:
                 lazy_phase(index, lazy, d, classes)
                 lazy_keys = [lazy_dir_key(i, sp) for i, sp in enumerate(lazy["dirs"])]
             closer = get_view(index, state) if final_commit == "view" else None
@@ -486,12 +587,12 @@ def arm_sqlite(ops, split, d, viols, lazy=None, classes=None, final_commit="pare
         finally:
             state["view"] = None
             index.close()
-        under = lambda k: any(k[:len(lk)] == lk for lk in lazy_keys)  # noqa: E731
+        below_lazy = lambda k: any(k[:len(lk)] == lk for lk in lazy_keys)  # noqa: E731
         if by_lookup is not None:
-            compare_index(f"sqlite-open{n}", model, {k: v for k, v in got.items() if not under(k)}, viols,
+            compare_index(f"sqlite-open{n}", model, {k: v for k, v in got.items() if not below_lazy(k)}, viols,
                           open_handle=True)
             compare_index(f"sqlite-open{n}-lookup", model,
-                          {k: v for k, v in by_lookup.items() if not under(k)}, viols, open_handle=True)
+                          {k: v for k, v in by_lookup.items() if not below_lazy(k)}, viols, open_handle=True)
         index = DataIndex.open(path)
         try:
             post = snapshot(index)
@@ -501,8 +602,8 @@ def arm_sqlite(ops, split, d, viols, lazy=None, classes=None, final_commit="pare
             index.close()
         compare_snapshots("sqlite-lazy-reopen" if lazy_keys else "sqlite-handle-vs-reopen", pre, post, viols,
                           loose={k for k, sp in model.items() if loose_key(sp)})
-        compare_index("sqlite-reopen", model, {k: v for k, v in got.items() if not under(k)}, viols)
-        compare_index("sqlite-reopen-lookup", model, {k: v for k, v in by_lookup.items() if not under(k)}, viols)
+        compare_index("sqlite-reopen", model, {k: v for k, v in got.items() if not below_lazy(k)}, viols)
+        compare_index("sqlite-reopen-lookup", model, {k: v for k, v in by_lookup.items() if not below_lazy(k)}, viols)
         if n_items != len(pre):
             viols.append(Viol("sqlite-reopen:len", f"len() = {n_items} for {len(pre)} keys reported before close"))
     return model
@@ -602,8 +703,9 @@ def _check_parts(parts):
 
 
 def validate(case):
+    assert sum(op["op"] == "view" for op in case["ops"]) <= 1, "one view per history"
     for op in case["ops"]:
-        assert op["op"] in ("set", "del", "mutate", "alias", "rename", *VIEW_OPS)
+        assert op["op"] in ("set", "del", "delnode", "mutate", "alias", "rename", *VIEW_OPS)
         assert not any(k.startswith("_") for k in op), "private model fields must not leak into a case"
         if op["op"] in ("alias", "rename"):
             _check_parts(op["src"])
@@ -617,10 +719,17 @@ def validate(case):
             assert op["via"] in ("parent", "view")
             continue
         if op["op"] in ("vset", "vdel"):
-            # reserved last part: a key written through a view is never written through the parent handle
+            # reserved last part: a key stored through a view is never stored through the parent handle
             # (the identity cache is per handle; cross-handle coherence is not part of the statement)
             assert op["name"] and op["name"][-1].startswith("vw")
             _check_parts(op["name"])
+        elif op["op"] in ("vdelkey", "vdelnode"):
+            # removal through the view of whatever lies there, also of keys the parent handle stored
+            assert op["name"], "relative to the view's prefix and not the view's own root"
+            _check_parts(op["name"])
+        elif op["op"] == "delnode":
+            assert op["key"], "the root node is not deleted"
+            _check_parts(op["key"])
         else:
             _check_parts(op["key"])
             assert not any(p.startswith("vw") or p.startswith("lzd") for p in op["key"])
@@ -647,31 +756,52 @@ def validate(case):
                 assert isinstance(p, str) and p and "/" not in p and "\0" not in p and not p.startswith("lzd")
 
 
-def final_model(ops, drop_root):
+def final_model(ops, drop_root, split=0):
+    """The index the history leaves behind (the same transitions as apply_ops, without an index)."""
     model = {}
     order = []
-    state = {"vkeys": set()}
-    for op in ops:
+    state = {"vkeys": set(), "poison": []}
+    for pos, op in enumerate(ops):
         kind = op["op"]
+        if pos == split and 0 < split < len(ops):
+            state["poison"] = []     # a new session (see unsafe_write)
         if kind in VIEW_OPS:
             if kind == "view":
                 state["prefix"] = tuple(op["prefix"])
-            elif kind in ("vset", "vdel") and state.get("prefix") is not None:
+            elif kind in ("vset", "vdel", "vdelkey", "vdelnode") and state.get("prefix") is not None:
                 full = view_full_key(state, op)
                 if kind == "vset":
+                    if unsafe_write(state, "view", full):
+                        continue
                     if full not in model:
                         order.append(full)
                     state["n"] = state.get("n", 0) + 1
                     model[full] = dict(op, op="set", key=list(full), _obj=state["n"])
                     state["vkeys"].add(full)
-                elif full in model and full in state["vkeys"]:
+                elif kind == "vdelnode":
+                    gone = drop_subtree(model, full, state)
+                    if gone:
+                        order[:] = [k for k in order if k not in gone]
+                        state["poison"].append((full, "view"))
+                elif full in model and (full in state["vkeys"] or kind == "vdelkey"):
                     del model[full]
                     order.remove(full)
+                    state["vkeys"].discard(full)
+                    state.setdefault("shared", set()).discard(full)
             continue
         key = tuple(op["key"])
         if drop_root and not key:
             continue
         shared = state.setdefault("shared", set())
+        if kind == "delnode":
+            if key:
+                gone = drop_subtree(model, key, state)
+                if gone:
+                    order[:] = [k for k in order if k not in gone]
+                    state["poison"].append((key, "parent"))
+            continue
+        if kind in ("set", "mutate", "alias", "rename") and unsafe_write(state, "parent", key):
+            continue
         if kind in ("alias", "rename"):
             src = tuple(op["src"])
             if src not in model or src == key:
@@ -721,8 +851,8 @@ def run_case(case, ctx):
     viols = []
     classes = []
     # the '/'-joined forms and trees do not cover the empty root key (statement)
-    model, order = final_model(ops, drop_root=True)
-    arm_dicts(final_model(ops, drop_root=False)[0], viols)
+    model, order = final_model(ops, drop_root=True, split=case.get("split", 0))
+    arm_dicts(final_model(ops, drop_root=False, split=case.get("split", 0))[0], viols)
     n_tree = 0
     with ctx.tmpdir() as d:
         if "json" in forms:
@@ -762,15 +892,15 @@ def run_case(case, ctx):
             # who wrote last before the end of the program, and through which handle the data is committed
             last_writer = None
             for op in ops:
-                if op["op"] in ("vset", "vdel"):
+                if op["op"] in ("vset", "vdel", "vdelkey", "vdelnode"):
                     last_writer = "view"
-                elif op["op"] in ("set", "del", "mutate"):
+                elif op["op"] in ("set", "del", "delnode", "mutate"):
                     last_writer = "parent"
             if last_writer:
                 classes.append(f"sqlite:last-writer={last_writer}/final-commit={case.get('final_commit', 'parent')}")
             run = best = 0
             for op in ops:
-                run = run + 1 if op["op"] in ("vset", "vdel") else 0
+                run = run + 1 if op["op"] in ("vset", "vdel", "vdelkey", "vdelnode") else 0
                 best = max(best, run)
             if best >= 2:
                 classes.append("sqlite:view-writes-in-a-row>=2")
@@ -793,6 +923,14 @@ def run_case(case, ctx):
                     cur.pop(tuple(op["src"]), None)
                     written_at.pop(tuple(op["src"]), None)
                 seen.add(tuple(op["key"]))
+            continue
+        if op["op"] == "delnode":
+            gone = [c for c in cur if under(c, tuple(op["key"]))]
+            if gone:
+                classes.append("delete-node")
+            for c in gone:
+                cur.pop(c, None)
+                written_at.pop(c, None)
             continue
         if op["op"] == "set" and "ekey" in op:
             classes.append("entry-key:" + ("none" if op["ekey"] is None else "other"))
@@ -913,7 +1051,7 @@ _FORMS = st.sampled_from([
 ])
 _EXTRA = st.tuples(
     st.lists(st.tuples(st.sampled_from(["dup", "prefix", "del", "child", "root", "remote", "remote", "mutate",
-                                        "mutate", "alias", "rename", "ekey", "ekey"]),
+                                        "mutate", "alias", "rename", "ekey", "ekey", "delnode", "delnode"]),
                        st.integers(0, 7), st.integers(0, 9)), max_size=4),
     _FORMS,
     st.integers(0, 8),
@@ -936,9 +1074,12 @@ _LAZY = st.one_of(st.none(), st.tuples(st.lists(_LAZY_DIR, min_size=1, max_size=
 
 
 _VWRITE = st.tuples(st.lists(st.sampled_from(ALL_PARTS), max_size=2), st.integers(0, 3), _META, _HASH,
-                    st.sampled_from([None, True, False]), st.sampled_from(["vset", "vset", "vset", "vdel"]))
+                    st.sampled_from([None, True, False]),
+                    st.sampled_from(["vset", "vset", "vset", "vdel", "vdelkey", "vdelnode", "vdelnode"]))
 _VIEW_BLOCK = st.one_of(st.none(), st.tuples(
-    st.lists(st.sampled_from(ALL_PARTS), min_size=1, max_size=2),      # prefix
+    st.one_of(st.lists(st.sampled_from(ALL_PARTS), min_size=1, max_size=2),      # prefix: drawn, or
+              st.tuples(st.integers(0, 7), st.integers(1, 3)),                   # cut from a key of the history
+              st.tuples(st.integers(0, 7), st.integers(1, 2))),
     st.lists(_VWRITE, min_size=0, max_size=4),                         # writes through the view, in a row
     st.sampled_from(["none", "parent", "parent", "view"]),             # commit right before taking the view
     st.sampled_from(["none", "none", "view"]),                         # commit through the view right after taking it
@@ -1000,6 +1141,11 @@ def cases(draw):
             # an entry whose own key attribute is None / another existing key / a key that is nowhere stored
             own = [None, other["key"], ["ghost", "k"], [*base["key"][:2], "old"], other["key"]][pos % 5]
             new = dict(other, key=base["key"], ekey=own)
+        elif kind == "delnode":
+            # delete_node on a proper prefix of a key of the history (mostly) or on the key itself
+            depth = len(base["key"])
+            n = depth if depth == 1 or pos % 4 == 0 else 1 + pos % (depth - 1)
+            new = {"op": "delnode", "key": base["key"][:n]}
         else:
             new = {"op": "del", "key": base["key"]}
         ops = ops[:] + [new]
@@ -1008,6 +1154,14 @@ def cases(draw):
         block = draw(_VIEW_BLOCK)
         if block is not None:
             prefix, writes, c_before, c_taken, c_after, back, final = block
+            if isinstance(prefix, tuple):
+                # a proper prefix of a key the parent handle stores (the key itself when it has one part)
+                owner = orig[prefix[0] % len(orig)]["key"]
+                prefix = owner[:max(1, min(prefix[1], len(owner) - 1))]
+            # what the parent handle stores below the prefix, relative to it
+            below = sorted({tuple(op["key"][len(prefix):]) for op in case["ops"]
+                            if op["op"] in ("set", "alias", "rename") and len(op["key"]) > len(prefix)
+                            and op["key"][:len(prefix)] == prefix})
             steps = []
             if c_before != "none":
                 steps.append({"op": "commit", "via": c_before})
@@ -1018,8 +1172,16 @@ def cases(draw):
                 name = [*parts, f"vw{n}"]
                 if kind == "vset":
                     steps.append({"op": "vset", "name": name, "meta": meta, "hash": hsh, "loaded": loaded})
-                else:
+                elif kind == "vdel":
                     steps.append({"op": "vdel", "name": name})
+                elif kind == "vdelkey":
+                    # `del view[...]` of a key the parent handle stored
+                    if below:
+                        steps.append({"op": "vdelkey", "name": list(below[(n + len(parts)) % len(below)])})
+                else:
+                    # view.delete_node(...) on a node above keys of either handle
+                    target = list(below[(n + len(parts)) % len(below)]) if below and hsh is not None else name
+                    steps.append({"op": "vdelnode", "name": target[:1 + n % len(target)]})
             if c_after != "none":
                 steps.append({"op": "commit", "via": c_after})
             pos = max(0, len(case["ops"]) - back)
